@@ -205,6 +205,16 @@ def save (now : Int) (sch : Schema) (e : Entity) (st : Option Key) : Option Key 
   | (st', .nil) => (st', .mismatch)
   | (st', _) => (st', .err)
 
+/-- `HashRepository.SaveMulti`: the script runs once per entity, in order (ExecMulti pipelines the
+EVALSHAs); result i is the result of entity i's own script execution. The store maps redis keys
+(the entity's key field) to hashes. -/
+def saveMulti (now : Int) (sch : Schema) : List Entity → (String → Option Key) → (String → Option Key) × List SaveRes
+  | [], st => (st, [])
+  | e :: r, st =>
+    let x := save now sch e (st e.key)
+    let y := saveMulti now sch r (fun k => if k = e.key then x.1 else st k)
+    (y.1, x.2 :: y.2)
+
 inductive FetchRes where
   | ok (e : Entity)
   | notFound           -- ErrEmptyHashRecord
